@@ -101,6 +101,11 @@ def main() -> None:
         out = hlib.RecWriter(sys.argv[3])
         for e in edges:
             one(out, e['s']['x'], e['s']['y'], e['a'], 'edge')
+    elif mode == 'replay':
+        rp = json.load(open(sys.argv[2]))
+        rec = rp['record']
+        out = hlib.RecWriter(sys.argv[3])
+        one(out, rec['pre']['x'], rec['pre']['y'], rec['a'], 'replay')
     else:
         out = hlib.RecWriter(sys.argv[2])
         rng = random.Random(hlib.seed() * 31 + 9)
